@@ -161,19 +161,20 @@ impl TypeEntry {
 }
 
 impl TypeSpace {
-    /// ASSUMED: converting a schema allocates zero or more fresh identifiers, gives every one
-    /// of them an entry, never touches an entry that existed before, and returns an
-    /// identifier that has been handed out.
+    /// ASSUMED (the conversion driver, convert.rs -- not verified): converting a schema
+    /// allocates zero or more fresh identifiers, gives every one of them an entry, never
+    /// touches an entry that existed before, does not exhaust the identifier space, and
+    /// returns an entry whose reference target (if it is a reference) has been handed out.
     #[verifier::external_body]
-    pub fn id_for_schema<'a>(&mut self, type_name: Name, schema: &'a Schema) -> (r: Result<(TypeId, &'a Option<Box<Metadata>>)>)
+    pub fn convert_schema<'a>(&mut self, type_name: Name, schema: &'a Schema) -> (r: Result<(TypeEntry, &'a Option<Box<Metadata>>)>)
         requires
             old(self).wf(),
             keys_lawful(),
         ensures
             r is Ok ==> {
                 &&& final(self).wf()
-                &&& old(self).next_id <= final(self).next_id
-                &&& r->Ok_0.0.0 < final(self).next_id
+                &&& old(self).next_id <= final(self).next_id < u64::MAX
+                &&& (r->Ok_0.0.details is Reference ==> ref_target(r->Ok_0.0.details).0 < final(self).next_id)
                 &&& forall|k: TypeId| #[trigger] old(self).ids().contains_key(k) ==>
                         final(self).ids().contains_key(k) && final(self).ids()[k] == old(self).ids()[k]
                 &&& forall|i: u64| old(self).next_id <= i < final(self).next_id ==> #[trigger] final(self).ids().contains_key(TypeId(i))
